@@ -162,6 +162,14 @@ def selectInst (order : List InstEntry) (gs : List GateCaps) : Method → Except
     | none => .error .value
   | .other => .error .type
 
+/-- `Circuit.instantiate` after /repo e23425b: once the instantiater is chosen (selection errors come
+first), `check_target` and `target.dim != self.dim → ValueError`, before any optimiser runs. -/
+def selectGuarded (order : List InstEntry) (gs : List GateCaps) (m : Method)
+    (targetDim circuitDim : Nat) : Except Err Chosen :=
+  match selectInst order gs m with
+  | .error e => .error e
+  | .ok ch => if targetDim != circuitDim then .error .value else .ok ch
+
 /-! ## 5. `Circuit.set_params` on the list-of-cycles circuit -/
 open BqVerif.Circ
 
